@@ -17,7 +17,7 @@ PROVED, for argument lists and models of any length, any depth of the context st
       updated at every registration).  With p = the number of UPD entries and m = the number of joining metabolites the trace is
         [0, p)       UPD   partial(x._reaction.update, outside)       one per joining metabolite x whose entry reaction set holds a
                            reaction that does not belong to the model (exactly where `x._reaction.difference_update(outside)` was
-                           executed), x joining, THE entry for x (nothing twice), in the order of the list, and the captured set is
+                           executed), x joining, THE entry for x (nothing twice), and the captured set is
                            EXACTLY {r in x._reaction at entry | r._model is not the model} - the set that was taken out - and is
                            not empty; no UPD entry for a joining metabolite that lost nothing;
         p            ISUB  partial(self.metabolites.__isub__, L)      registered on the model's own DictList object; L (read in
@@ -55,8 +55,21 @@ uninterpreted); `context(f)` = HistoryManager.__call__ by its proved contract (t
 history), recorded in the ghost trace.
 Engine: NO change of pyvc.
 
-Mutation trials (tools/mutate_and_run.sh cobra/core/model.py ... contracts.c02_add_metabolites_ctx --hooks HOOKS "Model.add_metabolites[context]"):
-see the list at the end of this docstring (filled in after the runs).
+The trace clauses are stated under a FREE Boolean constant (`GATE -> clause`, see `_gated`): proved for both of its values, hence for
+True; this keeps the trace quantifiers out of the way in the obligations that restate the no-context post-condition.  The
+no-context loop invariants are reused without their conjunct `_is_filtered(E, fe, 0, m)` (not needed under the loops, see
+`_without_filtered`); the post-condition itself is reused unchanged.
+
+Mutation trials (tools/mutate_and_run.sh cobra/core/model.py ... contracts.c02_add_metabolites_ctx --hooks HOOKS
+"Model.add_metabolites[context]"), each NOT verified (named obligations `unknown`), all in case `joining`:
+  A1 the SETN registration skipped (`pass`)                                   loop#2/inv-preserve.2 .6 .7, exit=return#1/post.26
+  A2 __isub__ registered with metabolite_list[1:] (off by one)                exit=return#1/post.16 .17 .18 .19
+  A3 `if outside:` -> `if True:` (an update registered for nothing taken out) loop#0/inv-preserve.11 (captured set not empty)
+  A4 __isub__ registered AFTER the setattr entries (two statements swapped)   exit=return#1/post.19 .23-.27
+  A5 partial(x._reaction.update, x._reaction) (the remaining set captured
+     instead of what was taken out)                                           loop#0/inv-preserve.11 .12
+Lemma guards: `False` does not follow from the lemma hypotheses, the negated goals are not provable, `model-pointers` is not provable
+without its extra hypothesis.
 """
 import z3
 import cobra  # noqa
